@@ -68,7 +68,8 @@ func (c *Counter[T]) Add(v T) {
 		return
 	}
 	c.buf.Add(v)
-	if c.buf.Len() >= c.cap {
+	// A pass may by chance remove nothing, so repeat until there is room.
+	for c.buf.Len() >= c.cap && c.p != 0 {
 		// Instead of flipping a coin for each element, grab blocks of 64 random
 		// bits and use them directly, refilling only as needed.
 		var nb, rnd uint64
